@@ -57,6 +57,10 @@ if TYPE_CHECKING:
 log = logging.getLogger(__name__)
 
 
+# the largest character identifier a CID-keyed font can have
+MAX_CID = 65535
+
+
 def get_widths(seq: Iterable[object]) -> Dict[Union[str, int], float]:
     """Build a mapping of character widths for horizontal writing."""
     widths: Dict[int, float] = {}
@@ -74,7 +78,8 @@ def get_widths(seq: Iterable[object]) -> Dict[Union[str, int], float]:
             if len(r) == 3:
                 (char1, char2, w) = r
                 if isinstance(char1, int) and isinstance(char2, int):
-                    for i in range(cast(int, char1), cast(int, char2) + 1):
+                    # CIDs do not exceed 65535, whatever the range says
+                    for i in range(cast(int, char1), min(cast(int, char2), MAX_CID) + 1):
                         widths[i] = w
                 else:
                     log.warning(
@@ -104,7 +109,7 @@ def get_widths2(seq: Iterable[object]) -> Dict[int, Tuple[float, Point]]:
             r.append(v)
             if len(r) == 5:
                 (char1, char2, w, vx, vy) = r
-                for i in range(cast(int, char1), cast(int, char2) + 1):
+                for i in range(cast(int, char1), min(cast(int, char2), MAX_CID) + 1):
                     widths[i] = (w, (vx, vy))
                 r = []
     return widths
